@@ -32,23 +32,35 @@ SCRIPTS = {
     "net_connections": "(i_net_connections 0)", "net_connections_unix": "(i_net_connections 1)",
     "net_connections_all": "(i_net_connections 2)", "nice": "(i_sys FSysPrio)", "ionice": "(i_sys FSysIoprio)",
     "cpu_affinity": "(i_sys FSysAffinity)", "rlimit": "i_rlimit", "is_running": "f_is_running",
-    "parent": "f_parent", "parents": "f_parents", "children": "f_children", "pid": "Skip",
+    "parent": "f_parent", "parents": "f_parents", "children": "f_children", "children_rec": "f_children_rec",
+    "wait": "f_wait", "pid": "Skip",
 }
-ORACLE_ONLY = ("children_rec", "iter:name,ppid")          # enumerated against the property oracle only
-KMAX = {"children_rec": 26, "iter:name,ppid": 38, "as_dict": 64}           # upper bounds of their access counts (checked at run time)
+# the same queries on the Process object of the current entry (process_iter)
+ESCRIPTS = {"name": "(name_of Any FStatE FCmdlineE)", "ppid": "(ppid_of Any FStatE)", "status": "(status_of Any FStatE)"}
+ITERS = (["name", "ppid"], ["status", "ppid", "name"])
+BLOCKS = ("oneshot:cpu_times,name,ppid,status", "oneshotc:cpu_times,name,ppid,status", "oneshot:uids,gids,username",
+          "oneshotc:memory_full_info,memory_maps,memory_info", "oneshotc:exe,cmdline,name,exe")
+# other processes that may vanish during a tree call: which pids are worth removing, per call
+OTHERS = {"parent": [W.PPID], "parents": [W.PPID], "children": [W.CHILD, W.CHILD2],
+          "children_rec": [W.CHILD, W.GRANDCHILD], "iter": [W.PPID, W.CHILD]}
+ORACLE_ONLY = ()                                            # (as_dict() only, when its attribute order is unknown)
+KMAX = {"as_dict": 70}                                      # upper bound of its access count (checked at run time)
 PAIRS = (["name", "ppid"], ["uids", "gids", "username"], ["memory_full_info", "memory_maps", "memory_info"],
          ["exe", "cmdline", "status"], ["open_files", "num_fds", "threads"])
 TREE = ("parent", "parents", "children", "children_rec")    # calls that query other Process objects too
 ALLOWED = ("NoSuchProcess", "ZombieProcess", "AccessDenied")
+PSUTIL_ERRORS = ALLOWED + ("TimeoutExpired",)
 
-RULE = ("every Linux Process query reachable through psutil.Process (all of psutil._as_dict_attrnames, is_running, parent, "
-        "parents, children, children(recursive), as_dict() in full and for attribute groups sharing a oneshot cache, "
-        "process_iter(attrs)) x base kind {live, kernel thread, zombie, live with racing descriptor/thread/smaps_rollup} x "
-        "EVERY access index k of the call -- procfs accesses and the accesses outside procfs (os.stat of link targets, of "
-        "'(deleted)' paths of exe/cwd/fd links and smaps mappings, isfile/access of cmdline[0], tty nodes) -- (count taken "
-        "from a dry run of the model) x fault "
-        "{vanish at k, EACCES at k, EPERM at k (quick: every fourth k)}; thorough adds every pair (deny at i, vanish at j>i). After every vanish all "
-        "OS-consulting queries are called again on the same object. A case is non-trivial when the fault fires "
+RULE = ("every Linux Process query reachable through psutil.Process (all of psutil._as_dict_attrnames, is_running, wait(0), "
+        "parent, parents, children, children(recursive), as_dict() in full and for attribute groups sharing a oneshot cache, "
+        "oneshot() blocks (first exception leaves / every call guarded), process_iter(attrs)) x base kind {live with "
+        "'(deleted)' links and mappings, kernel thread, zombie, live with racing descriptor/thread/smaps_rollup} x "
+        "EVERY access index k of the call -- procfs accesses, per-process system calls and the accesses outside procfs "
+        "(os.stat of link targets, of '(deleted)' paths of exe/cwd/fd links and smaps mappings, isfile/access of "
+        "cmdline[0], tty nodes) -- (count taken from a dry run of the model) x fault "
+        "{vanish at k, EACCES at k, EPERM at k (quick: every eighth k), for tree calls: another process (parent / child "
+        "/ grandchild / listed pid) vanishes at k}; thorough adds every pair (deny at i, vanish at j>i). After every vanish "
+        "all OS-consulting queries are called again on the same object. A case is non-trivial when the fault fires "
         "(k below the number of accesses); distinct = distinct (kind, method, fault schedule).")
 TRUSTED = ["correspondence harness props/C03.py + props/_c03_world.py (fake procfs, access-counting fault shim over "
            "builtins.open/os.* and the per-process C calls) and pv/",
@@ -62,7 +74,7 @@ ASSUMPTIONS = ["the first read of an opened procfs file is the only read access 
                "data returned by a successful access is well formed (parsing of malformed content is C06/C12/C13/C14)",
                "refusals (EACCES/EPERM) are injected on every access of the call -- per-process procfs paths of any pid and the files outside procfs (link targets, '(deleted)' paths, cmdline[0], tty nodes) -- except the global procfs files (/proc, /proc/net/*) and the /dev listing",
                "CPython exception matching and the os/io layer are modelled, not verified"]
-EXHAUSTIVE = {"quick": "all access indexes x {vanish, EACCES} (EPERM at every fourth index) for every scripted and oracle-only method and all four base kinds",
+EXHAUSTIVE = {"quick": "all access indexes x {vanish, EACCES} (EPERM at every eighth index) for every method and all four base kinds; other-process vanish at every index of the tree calls (live kind)",
               "thorough": "the same plus all two-fault sequences (deny at i, vanish at j>i)"}
 
 
@@ -77,10 +89,12 @@ def _g_strs(l):
 def layout_term():
     cls = {"reg": "LReg", "sock": "LSock", "pipe": "LOtherLink", "absother": "LAbsOther"}
     fds = "[" + "; ".join("(%s, %s)" % (_g_str(n), cls[c]) for n, c in W.FDS) + "]"
-    pids = sorted([W.PID, W.PPID, W.CHILD, W.CHILD2, W.OTHER])
+    pids = sorted([W.PID, W.PPID, W.CHILD, W.CHILD2, W.OTHER, W.GRANDCHILD])
+    kids = [(W.PID, [W.CHILD, W.CHILD2]), (W.CHILD, [W.GRANDCHILD]), (W.PPID, [W.OTHER, W.PID])]
+    kids_t = "[" + "; ".join("(%s, %s)" % (_g_str(p), _g_strs([str(c) for c in cs])) for p, cs in kids) + "]"
     return ("(Build_layout %s %s %s %s %s %s %s %s %s %s %s %s)" % (
         _g_str(W.PID), _g_str(W.PPID), fds, _g_strs(W.TASKS), _g_strs([str(p) for p in pids]),
-        _g_strs([str(W.CHILD), str(W.CHILD2)]), _g_strs([str(W.CHILD2)]), _g_str(W.RACE_FD), _g_str(W.RACE_TASK),
+        kids_t, _g_strs([str(W.CHILD2)]), _g_str(W.RACE_FD), _g_str(W.RACE_TASK),
         _g_str(W.DEL_FD), _g_strs(W.MAPS_DEL), _g_strs(W.DEVS)))
 
 
@@ -96,6 +110,12 @@ def script_of(m, order=None):
         names = order or m.split(":", 1)[1].split(",")
         if all(n in SCRIPTS for n in names):
             return "(as_dict [%s])" % "; ".join(SCRIPTS[n] for n in names)
+    if m.startswith("iter:") and order and all(n in ESCRIPTS for n in order):
+        return "(f_iter [%s])" % "; ".join(ESCRIPTS[n] for n in order)
+    if m.startswith(("oneshot:", "oneshotc:")):
+        names = m.split(":", 1)[1].split(",")
+        return "(%s [%s])" % ("oneshot_block" if m.startswith("oneshot:") else "oneshot_block_c",
+                              "; ".join(SCRIPTS[n] for n in names))
     return None
 
 
@@ -105,7 +125,8 @@ def coq_term(case):
         return "JL []"
     v = "None" if case.get("v") is None else "(Some %d%%nat)" % case["v"]
     den = "[" + "; ".join("%d%%nat" % k for k, _ in case.get("d", [])) + "]"
-    return "run_case %s %s %d%%nat %s %s true true" % (LAYOUT, sc, KIND_NO[case["base"]], v, den)
+    ov = "[" + "; ".join("(%s, %d%%nat)" % (_g_str(p), k) for p, k in case.get("ov", [])) + "]"
+    return "run_case %s %s %d%%nat %s %s %s true true" % (LAYOUT, sc, KIND_NO[case["base"]], v, den, ov)
 
 
 def coq_struct(case, raw):
@@ -131,9 +152,11 @@ def _set_order(lists):
 
 def method_names():
     """[(method name, iteration order of as_dict attributes or None)]"""
-    orders, full = _set_order([list(p) for p in PAIRS])
+    orders, full = _set_order([list(p) for p in PAIRS] + [list(p) for p in ITERS])
     ms = [(m, None) for m in W.METHODS if m != "as_dict"]
     ms += [("as_dict:" + ",".join(p), o) for p, o in zip(PAIRS, orders)]
+    ms += [("iter:" + ",".join(p), o) for p, o in zip(ITERS, orders[len(PAIRS):])]
+    ms += [(b, None) for b in BLOCKS]
     if full and all(n in SCRIPTS for n in full):
         ms.append(("as_dict:" + ",".join(full), full))    # as_dict() in full, in the order the implementation iterates
     else:
@@ -180,8 +203,17 @@ def gen_cases(rng, tier):
         for k in ks:
             mk("V", b, m, o, k, [])
             mk("D-EACCES", b, m, o, None, [[k, "EACCES"]])
-            if tier != "quick" or k % 4 == 1:      # both errnos are PermissionError to Python; quick samples EPERM
+            if tier != "quick" or k % 8 == 1:      # both errnos are PermissionError to Python; quick samples EPERM
                 mk("D-EPERM", b, m, o, None, [[k, "EPERM"]])
+        # another process (parent / child / listed pid) vanishes at access k
+        fam = "iter" if m.startswith("iter:") else m
+        if fam in OTHERS and (tier != "quick" or b == "live"):
+            for op in OTHERS[fam]:
+                for k in ks:
+                    c = {"kind": "one", "cls": "VO", "base": b, "m": m, "v": None, "d": [], "ov": [[op, k]]}
+                    if o:
+                        c["ord"] = o
+                    cases.append(c)
         if tier == "thorough":
             for i in range(n):
                 for j in range(i + 1, n):
@@ -199,7 +231,7 @@ def _canon_out(o):
         return T("Val") if o[1] == "ok" else T("BadShape", o[1])
     name, pid = o[1], o[2]
     who = None
-    if name in ALLOWED:
+    if name in PSUTIL_ERRORS:
         who = T("self") if pid == W.PID else T("other")
     return T("Exc", T(name), who)
 
@@ -212,13 +244,17 @@ def impl_run(case, coq, env):
             and _pslinux.HAS_CPU_AFFINITY and hasattr(_pslinux.Process, "io_counters")):
         return T("Skip", "this kernel lacks smaps/smaps_rollup/io: method set differs")
     m = case["m"]
+    if m.startswith("iter:") and case.get("ord"):
+        if list(set(m.split(":", 1)[1].split(","))) != case["ord"]:
+            return T("Skip", "attribute order differs from the one the case was generated for")
     if m.startswith("as_dict:") and case.get("ord"):
         attrs = m.split(":", 1)[1].split(",")
         real = list(psutil._as_dict_attrnames) if set(attrs) == set(psutil._as_dict_attrnames) else list(set(attrs))
         if real != case["ord"]:
             return T("Skip", "as_dict attribute order differs from the one the case was generated for")
     deny = {int(k): getattr(E, e) for k, e in case.get("d", [])}
-    r = W.run_case(env["work"], case["base"], m, vanish=case.get("v"), deny=deny, sticky=True)
+    r = W.run_case(env["work"], case["base"], m, vanish=case.get("v"), deny=deny, sticky=True,
+                   ovanish={p: k for p, k in case.get("ov", [])})
     bad_after = []
     for m2, o2 in sorted(r.get("after", {}).items()):
         if o2[0] == "exc" and o2[1] == "NoSuchProcess" and o2[2] == W.PID:
@@ -241,6 +277,10 @@ def oracle(case, impl):
     if out["t"] == "Exc":
         name = out["a"][0]["t"]
         who = out["a"][1]
+        if name == "TimeoutExpired":
+            if m != "wait" or gone or who is None or who["t"] != "self":
+                return "raises TimeoutExpired (only wait(timeout) on a process that is still there may)"
+            return None
         if name not in ALLOWED:
             return "leaks a bare %s" % name
         if who is None or (who["t"] != "self" and m.split(":")[0] not in TREE and not m.startswith("iter:")):
@@ -251,7 +291,8 @@ def oracle(case, impl):
             return "raises ZombieProcess for a process that is not a zombie"
         if name == "AccessDenied" and not denied and case["base"] != "zombie":
             return "raises AccessDenied although nothing was refused"
-    if case.get("v") == 0 and not denied and m.split(":")[0] not in ("is_running", "children", "children_rec") \
+    if case.get("v") == 0 and not denied and m.split(":")[0] not in ("is_running", "children", "children_rec", "wait",
+                                                                      "oneshotc") \
             and not m.startswith("iter:"):
         # gone before the call's first access: an OS-consulting query on a fresh object must raise NoSuchProcess
         if not (out["t"] == "Exc" and out["a"][0]["t"] == "NoSuchProcess"):
@@ -285,6 +326,8 @@ def _sched(case):
         s.append("%s at access %d" % (e, k))
     if case.get("v") is not None:
         s.append("vanish at access %d" % case["v"])
+    for p, k in case.get("ov") or []:
+        s.append("pid %s vanishes at access %d" % (p, k))
     return ", ".join(s) or "no fault"
 
 
@@ -292,20 +335,23 @@ def nontrivial(case, coq, impl):
     if not isinstance(impl, list):
         return False
     n = len(impl[1])
-    ks = [k for k, _ in case.get("d") or []] + ([case["v"]] if case.get("v") is not None else [])
+    ks = [k for k, _ in case.get("d") or []] + ([case["v"]] if case.get("v") is not None else []) \
+        + [k for _, k in case.get("ov") or []]
     return bool(ks) and min(ks) < n
 
 
 MANIFEST = {
-    "text": "Coq: a deep-embedded access-script language (Acc/Try/If/ForNames/Call/Memo, wrap_exceptions and the zombie / "
-            "not-alive / readlink ladders written in it), an interpreter over a fault oracle (vanish index, ANY set of refused "
-            "accesses, arbitrary base answers within the fault model), a computable guard analysis and its soundness theorem "
-            "for ALL worlds; closed theorems that every single-process Linux query script is guarded (value or NoSuchProcess-"
-            "when-gone / ZombieProcess / AccessDenied with the object's pid; NoSuchProcess once gone), refuted theorems with "
-            "witnesses about the code before the three repairs (children/ppid_map PermissionError, exe() on a kernel thread "
-            "FileNotFoundError, ppid()/parent()/children() NoSuchProcess for a live process after one refused read). Tie to the code: every "
-            "access index x fault x base kind is run on the real psutil and outcome + complete access sequence are compared.",
+    "text": "Coq: a deep-embedded access-script language (Acc/Try/If/ForNames/Walk/Call/Memo, wrap_exceptions and the zombie / "
+            "not-alive / readlink ladders written in it), an interpreter over a fault oracle (vanish index of the process, "
+            "vanish indexes of OTHER processes, ANY set of refused accesses, arbitrary base answers within the fault model), "
+            "a computable guard analysis over (gone, cache, process-in-focus gone) and its soundness theorem for ALL worlds; "
+            "closed theorems that every single-process Linux query script, as_dict() and oneshot() blocks are guarded (value "
+            "or NoSuchProcess-when-gone / ZombieProcess / AccessDenied with the object's pid), that parent / parents / "
+            "children / children(recursive) / process_iter are guarded with other processes vanishing, wait(0), NoSuchProcess "
+            "once gone for every OS-consulting query, the memoising accessors' exemption as a theorem about the script "
+            "table, and refuted theorems about the code before the three repairs. Tie to the code: every access index x "
+            "fault x base kind is run on the real psutil and outcome + complete access sequence are compared.",
     "note": "Trusted: Coq kernel + vm_compute; the fault model (Spec.v base_ok / Model.v answer); hand-written scripts "
-            "(tied by exhaustive fault enumeration of access sequences); harness shim. children(recursive=True) and "
-            "process_iter(attrs) are enumerated against the property oracle only (no script).",
+            "(tied by exhaustive fault enumeration of access sequences); harness shim. No call is oracle-only (as_dict() "
+            "falls back to oracle-only if its attribute order cannot be determined).",
 }
